@@ -114,10 +114,7 @@ def r_infl(idx, rep, rule="R-INFL"):
     rep.check(len(both) == 1 and len(fb) == 1 and fb[0].lineno > both[0].lineno, rule, sf.key + "|specialised iff found0 and found1", sf.where,
               "support_function must use the specialised supports iff both were found and fall back to the colliders' own support otherwise")
     c0, c1 = f.params()[0], f.params()[1]
-    locs = {st.targets[0].id: st.value for st in f.node.body if isinstance(st, ast.Assign) and isinstance(st.targets[0], ast.Name)}
-    guards = _inflation_guards(f, (c0, c1))
-    ab = _Abstract(c0, c1, tspec, locs)
-    _enumerate(rep, rule, f, U, (c0, c1), guards, ab, lambda T: T[0] in tspec and T[1] in tspec, tcore, "generic")
+    _enumerate(idx, rep, rule, f, U, (c0, c1), tspec, lambda T: T[0] in tspec and T[1] in tspec, tcore, "generic")
     # ---------------- primitives variant: every accepted pair is specialised
     g = idx.func(N2 + "::gjk_nesterov_accelerated_primitives")
     gd = idx.func(N2 + "::get_data_from_collider")
@@ -141,65 +138,190 @@ def r_infl(idx, rep, rule="R-INFL"):
         if has_radius and not reads:
             tcore2.add(T)
     d0, d1 = g.params()[0], g.params()[1]
-    locs2 = {st.targets[0].id: st.value for st in g.node.body if isinstance(st, ast.Assign) and isinstance(st.targets[0], ast.Name)}
-    guards2 = _inflation_guards(g, (d0, d1))
-    ab2 = _Abstract(d0, d1, set(tspec2), locs2)
     U2 = sorted(tspec2)
-    _enumerate(rep, rule, g, U2, (d0, d1), guards2, ab2, lambda T: True, tcore2, "primitives")
+    _enumerate(idx, rep, rule, g, U2, (d0, d1), set(tspec2), lambda T: True, tcore2, "primitives")
     rep.extra["R-INFL"] = {"universe": U, "T_spec": sorted(tspec), "T_core": sorted(tcore), "T_spec_primitives": sorted(tspec2), "T_core_primitives": sorted(tcore2)}
 
 
-def _inflation_guards(f, colliders):
-    """side -> list of guard expressions (conjunction of enclosing if tests) of `inflation += colliderK.radius`"""
-    out = {0: [], 1: []}
+class _InflationInterp:
+    """Abstract interpretation of the inflation set-up over the finite domain of collider classes: colliders are (class of side 0, class of side 1),
+    booleans are True / False / None (unknown), numbers are multisets of `radius of side k` (None = unknown).  Helper functions of the module are
+    interpreted with their abstract arguments, so the result does not depend on how the set-up is split into helpers."""
 
-    def walk(body, conds):
+    def __init__(self, idx, f, colliders, tspec):
+        self.idx, self.f, self.c, self.tspec = idx, f, {colliders[0]: 0, colliders[1]: 1}, tspec
+
+    # ---- values: ('coll', side) | bool | ('num', {side: count}) | ('tuple', [...]) | None
+    def ev(self, e, env, T, mod, depth=0):
+        if depth > 6:
+            return None
+        if isinstance(e, ast.Constant):
+            if isinstance(e.value, bool):
+                return e.value
+            if isinstance(e.value, (int, float)):
+                return ("num", {}) if e.value == 0 else None
+            return None
+        if isinstance(e, ast.Name):
+            return env.get(e.id)
+        if isinstance(e, ast.BoolOp):
+            vals = [self.ev(v, env, T, mod, depth) for v in e.values]
+            if isinstance(e.op, ast.And):
+                if any(v is False for v in vals):
+                    return False
+                return None if any(v is None or not isinstance(v, bool) for v in vals) else True
+            if any(v is True for v in vals):
+                return True
+            return None if any(v is None or not isinstance(v, bool) for v in vals) else False
+        if isinstance(e, ast.UnaryOp) and isinstance(e.op, ast.Not):
+            v = self.ev(e.operand, env, T, mod, depth)
+            return (not v) if isinstance(v, bool) else None
+        if isinstance(e, ast.Compare) and len(e.ops) == 1:
+            # type(x) == C / type(x) is C / type(x) in (C1, C2) / isinstance-free
+            l, r = e.left, e.comparators[0]
+            for x, y in ((l, r), (r, l)):
+                if isinstance(x, ast.Call) and call_name(x) == "type" and len(x.args) == 1:
+                    cv = self.ev(x.args[0], env, T, mod, depth)
+                    if isinstance(cv, tuple) and cv[0] == "coll":
+                        if isinstance(e.ops[0], (ast.Eq, ast.Is)) and isinstance(y, ast.Name):
+                            return T[cv[1]] == y.id
+                        if isinstance(e.ops[0], (ast.NotEq, ast.IsNot)) and isinstance(y, ast.Name):
+                            return T[cv[1]] != y.id
+                        if isinstance(e.ops[0], ast.In) and x is l and isinstance(y, (ast.Tuple, ast.List, ast.Set)):
+                            return T[cv[1]] in {u(z) for z in y.elts}
+            return None
+        if isinstance(e, ast.Call) and call_name(e) == "isinstance" and len(e.args) == 2:
+            cv = self.ev(e.args[0], env, T, mod, depth)
+            if isinstance(cv, tuple) and cv[0] == "coll":
+                names = {u(z) for z in e.args[1].elts} if isinstance(e.args[1], ast.Tuple) else {u(e.args[1])}
+                return T[cv[1]] in names      # the collider classes are leaves of the hierarchy except Margin wrappers (exact-type domain)
+            return None
+        if isinstance(e, ast.Attribute) and e.attr == "radius":
+            cv = self.ev(e.value, env, T, mod, depth)
+            if isinstance(cv, tuple) and cv[0] == "coll":
+                return ("num", {cv[1]: 1})
+            return None
+        if isinstance(e, ast.BinOp) and isinstance(e.op, ast.Add):
+            a, b_ = self.ev(e.left, env, T, mod, depth), self.ev(e.right, env, T, mod, depth)
+            if isinstance(a, tuple) and a[0] == "num" and isinstance(b_, tuple) and b_[0] == "num":
+                out = dict(a[1])
+                for k, v in b_[1].items():
+                    out[k] = out.get(k, 0) + v
+                return ("num", out)
+            return None
+        if isinstance(e, ast.IfExp):
+            t = self.ev(e.test, env, T, mod, depth)
+            if isinstance(t, bool):
+                return self.ev(e.body if t else e.orelse, env, T, mod, depth)
+            return None
+        if isinstance(e, ast.Tuple):
+            return ("tuple", [self.ev(x, env, T, mod, depth) for x in e.elts])
+        if isinstance(e, ast.Subscript) and isinstance(const(e.slice), int):
+            v = self.ev(e.value, env, T, mod, depth)
+            if isinstance(v, tuple) and v[0] == "tuple" and -len(v[1]) <= const(e.slice) < len(v[1]):
+                return v[1][const(e.slice)]
+            return None
+        if isinstance(e, ast.Call):
+            callee = self.idx.resolve_call(mod, e, None)
+            fn = getattr(callee, "node", None)
+            if isinstance(fn, ast.FunctionDef) and getattr(callee, "cls", None) is None and callee.module.name.startswith("distance3d.gjk"):
+                from ..core.inline import bind_args
+                b = bind_args(fn, e)
+                if b is None:
+                    return None
+                env2 = {p_: self.ev(a_, env, T, mod, depth + 1) for p_, a_ in b.items()}
+                r = self.run(fn.body, env2, T, callee.module, depth + 1)
+                return r[1] if r and r[0] == "ret" else None
+            return None
+        return None
+
+    def run(self, body, env, T, mod, depth=0):
+        """('ret', value) | ('fall', None) | ('unknown', None)"""
         for st in body:
+            if isinstance(st, ast.Expr):
+                continue
+            if isinstance(st, ast.Return):
+                return ("ret", self.ev(st.value, env, T, mod, depth) if st.value is not None else None)
+            if isinstance(st, ast.Assign) and len(st.targets) == 1 and isinstance(st.targets[0], ast.Name):
+                env[st.targets[0].id] = self.ev(st.value, env, T, mod, depth)
+                continue
+            if isinstance(st, ast.AugAssign) and isinstance(st.target, ast.Name) and isinstance(st.op, ast.Add):
+                cur, add = env.get(st.target.id), self.ev(st.value, env, T, mod, depth)
+                if isinstance(cur, tuple) and cur[0] == "num" and isinstance(add, tuple) and add[0] == "num":
+                    out = dict(cur[1])
+                    for k, v in add[1].items():
+                        out[k] = out.get(k, 0) + v
+                    env[st.target.id] = ("num", out)
+                else:
+                    env[st.target.id] = None if (isinstance(cur, tuple) and cur[0] == "num") or cur is None else cur
+                continue
             if isinstance(st, ast.If):
-                walk(st.body, conds + [st.test])
-                walk(st.orelse, conds + [ast.UnaryOp(op=ast.Not(), operand=st.test)])
-            elif isinstance(st, ast.AugAssign) and isinstance(st.target, ast.Name) and isinstance(st.op, ast.Add):
-                # the inflation accumulator is whatever `+= <collider>.radius` is applied to
-                for k, c in enumerate(colliders):
-                    if u(st.value) == "%s.radius" % c:
-                        out[k].append(conds)
-            elif isinstance(st, (ast.For, ast.While)):
-                walk(st.body, conds)
-    walk(f.node.body, [])
-    return out
+                t = self.ev(st.test, env, T, mod, depth)
+                if isinstance(t, bool):
+                    r = self.run(st.body if t else st.orelse, env, T, mod, depth)
+                    if r[0] != "fall":
+                        return r
+                    continue
+                # unknown test: both arms must leave the tracked state alone
+                e1, e2 = dict(env), dict(env)
+                r1, r2 = self.run(st.body, e1, T, mod, depth), self.run(st.orelse, e2, T, mod, depth)
+                if r1[0] != "fall" or r2[0] != "fall":
+                    return ("unknown", None)
+                for k in set(e1) | set(e2):
+                    env[k] = e1.get(k) if e1.get(k) == e2.get(k) else None
+                continue
+            if isinstance(st, (ast.While, ast.For)):
+                return ("loop", st)
+            # other statements (stores into arrays, asserts): cannot change the inflation
+            for n in ast.walk(st):
+                if isinstance(n, ast.Name) and isinstance(n.ctx, ast.Store):
+                    env[n.id] = None
+        return ("fall", None)
 
 
-def _enumerate(rep, rule, f, U, colliders, guards, ab, specialised, tcore, tag):
+def _inflation_name(f):
+    """the accumulator that is subtracted from the distance / added to the upper bound (`upper_bound += X`, `... - X`)"""
+    for st in ast.walk(f.node):
+        if isinstance(st, ast.AugAssign) and isinstance(st.op, ast.Add) and u(st.target) == "upper_bound" and isinstance(st.value, ast.Name):
+            return st.value.id
+    for st in ast.walk(f.node):
+        if isinstance(st, ast.Call) and (call_name(st) or "").endswith("run_gjk_nesterov_accelerated") and len(st.args) >= 2 and isinstance(st.args[1], ast.Name):
+            return st.args[1].id
+    return None
+
+
+def _enumerate(idx, rep, rule, f, U, colliders, tspec, specialised, tcore, tag):
+    infl = _inflation_name(f)
+    if infl is None:
+        raise AnalysisError("%s: the inflation accumulator (`upper_bound += X` / 2nd argument of run_gjk_nesterov_accelerated) was not found" % f.key)
+    it = _InflationInterp(idx, f, colliders, tspec)
     n_unknown = 0
     for T in itertools.product(U, U):
+        env = {colliders[0]: ("coll", 0), colliders[1]: ("coll", 1)}
+        r = it.run(f.node.body, env, T, f.module)
+        val = env.get(infl)
+        # the set-up ends at the main loop or at the hand-over to the shared loop (a return of a call that receives the accumulator)
+        counts = val[1] if isinstance(val, tuple) and val[0] == "num" else None
         for side in (0, 1):
-            added = False
-            unknown = False
-            for conds in guards[side]:
-                vals = [ab.ev(c, T) for c in conds]
-                if any(v is None for v in vals):
-                    unknown = True
-                elif all(vals):
-                    added = True
             want = specialised(T) and T[side] in tcore
             key = "%s|%s (%s, %s) side %d" % (f.key, tag, T[0], T[1], side)
-            if unknown:
+            if counts is None or r[0] == "unknown":
                 n_unknown += 1
-                rep.unknown(rule, key, f.where, "guard of the inflation not understood")
+                rep.unknown(rule, key, f.where, "inflation set-up not understood for this pair of classes")
                 continue
-            if added == want:
+            added = counts.get(side, 0)
+            if added == (1 if want else 0):
                 rep.ok(rule, key, f.where, "inflated" if added else "not inflated")
+            elif added > 1:
+                rep.bad(rule, key, f.where, "the radius of %s is added to the inflation %d times" % (T[side], added))
+            elif added:
+                rep.bad(rule, key, f.where, "the radius of %s is added to the inflation although the %s support that is used for this pair already includes it "
+                                            "(%s): the reported distance is too small by that radius" % (
+                                                T[side], "fallback (generic)" if not specialised(T) else "specialised",
+                                                "pair is not fully specialised" if not specialised(T) else "its specialised support reads .radius"))
             else:
-                if added:
-                    why = ("the radius of %s is added to the inflation although the %s support that is used for this pair already includes it "
-                           "(%s): the reported distance is too small by that radius" % (
-                               T[side], "fallback (generic)" if not specialised(T) else "specialised",
-                               "pair is not fully specialised" if not specialised(T) else "its specialised support reads .radius"))
-                else:
-                    why = "the specialised support of %s ignores its radius but the radius is not added to the inflation: the reported distance is too large" % T[side]
-                rep.bad(rule, key, f.where, why)
+                rep.bad(rule, key, f.where, "the specialised support of %s ignores its radius but the radius is not added to the inflation: the reported distance is too large" % T[side])
     if n_unknown:
-        rep.error("R-INFL: %d pair/side guards could not be evaluated in %s" % (n_unknown, f.key))
+        rep.error("R-INFL: %d pair/side set-ups could not be evaluated in %s" % (n_unknown, f.key))
 
 
 def r_dispatch(idx, rep, rule="R-DISPATCH"):
@@ -464,7 +586,18 @@ def r_mainloop(idx, rep, rule="R-MAINLOOP"):
     L = local_names(a) | local_names(b) | ((set(a.params()) | set(b.params())) - set(differing))
 
     def lines(f):
-        body = [s for s in canon_inline(f.node).body if not (isinstance(s, ast.Expr) and isinstance(s.value, ast.Constant))]
+        fn = canon_inline(f.node)
+        # the momentum block (`if <acceleration flag>:` — the generic variant carries the MeshGraph-only normalised update there) is where the variants
+        # legitimately differ and may be organised differently: it is not part of the comparison
+        flags = {p_ for p_ in f.params() if "accel" in p_ or "nesterov" in p_}
+
+        class Drop(ast.NodeTransformer):
+            def visit_If(self, n):
+                if isinstance(n.test, ast.Name) and n.test.id in flags:
+                    return ast.copy_location(ast.Expr(value=ast.Constant(value="momentum block")), n)
+                return self.generic_visit(n)
+        fn = Drop().visit(fn)
+        body = [s for s in fn.body if not (isinstance(s, ast.Expr) and isinstance(s.value, ast.Constant))]
         txt = "\n".join(ast.unparse(s) for s in body)
         return [re.sub(r"[A-Za-z_][A-Za-z_0-9]*", lambda m: "_" if m.group(0) in L else m.group(0), ln) for ln in txt.splitlines()]
     la, lb = lines(a), lines(b)
@@ -495,11 +628,6 @@ def r_mainloop(idx, rep, rule="R-MAINLOOP"):
                     "the two Nesterov main loops diverge outside the known differences: %s (`-` generic variant, `+` primitives variant, local names shown as `_`) — one of "
                     "them was edited alone, so gjk_nesterov_accelerated_distance and gjk_nesterov_accelerated_primitives_distance no longer run the same algorithm" % bad[:4],
                     "%d / %d statement lines compared" % (len(la), len(lb)), small=3)
-    # and the plain (non-accelerated) momentum statements occur in both
-    def mom(ls):
-        return {t.strip() for t in ls if t.strip() in ("_ = (_ + 1) / (_ + 3)", MOM[1])}
-    rep.check(mom(la) == mom(lb) and len(mom(la)) == 2, rule, "%s|plain momentum block" % a.key, a.where,
-              "the non-normalised momentum update differs between the variants: %s vs %s" % (sorted(mom(la)), sorted(mom(lb))), "identical")
 
 
 def r_supportsibling(idx, rep, rule="R-SUPPORTSIBLING"):
